@@ -60,6 +60,7 @@ func runC12(c *Config, r *Report) {
 	c12R20(ic, r)
 	c12R21(ic, r)
 	c12R22(ic, r)
+	c12R23to25(ic, r)
 	{
 		// R12.14 = R06.15: an ill-typed program that makes a compile pass fault is rejected with
 		// an error, not with a panic of the host
@@ -1402,4 +1403,165 @@ func c12R22(ic *IC, r *Report) {
 	})
 	r.Check(found != "", "R12.22", "cfg/case:switchStmt/case-expressions-checked-against-the-tag", ic.pos(cc.Pos()), "a type relation between the case expressions and the tag decides an error ("+found+")",
 		"the switch case of cfg chains the clauses without ever relating the type of a case expression to the type of the tag: a := 1; switch a { case \"x\": } is accepted (compiled Go: cannot convert \"x\" to type int) and compiled into a comparison that can never hold or that panics in reflect")
+}
+
+func init() {
+	ruleText["R12.23"] = "a call is unpacked into parameters only when it returns several values: in the function turning the argument list of a call into parameters (unpackParams) the guard of the unpacking compares the number of results of the callee with a constant so that it implies at least two (numOut() > 1) - a call that returns nothing is not an empty argument list"
+	ruleText["R12.24"] = "a return statement is checked against the result types of the function it belongs to as the scope records it: in the returnStmt case of cfg the type each operand is compared with derives from the scope's current function (sc.def), not from a variable of the walk assigned when functions are entered and left - such a hand-made stack is right only up to the depth its author thought of"
+	ruleText["R12.25"] = "function, slice and map values are not comparable: every case of (*itype).comparable that lists the function, slice, map or variadic category returns false only"
+}
+
+// c12R23to25: round-7 seeds on C12.
+func c12R23to25(ic *IC, r *Report) {
+	info := ic.Info
+	// ---- R12.23
+	if up := ic.F["typecheck.unpackParams"]; up != nil && up.Decl.Body != nil {
+		n := 0
+		ast.Inspect(up.Decl.Body, func(q ast.Node) bool {
+			ifs, ok := q.(*ast.IfStmt)
+			if !ok || len(callsIn(info, ifs.Cond, true, "interp.isCall")) == 0 {
+				return true
+			}
+			// the unpacking: a loop over the results in the body
+			hasLoop := false
+			ast.Inspect(ifs.Body, func(z ast.Node) bool {
+				switch z.(type) {
+				case *ast.ForStmt, *ast.RangeStmt:
+					hasLoop = true
+				}
+				return true
+			})
+			if !hasLoop {
+				return true
+			}
+			n++
+			implies := false
+			ast.Inspect(ifs.Cond, func(z ast.Node) bool {
+				be, ok := z.(*ast.BinaryExpr)
+				if !ok || len(callsIn(info, be.X, true, "interp.itype.numOut")) == 0 {
+					return true
+				}
+				if bl, ok := unparen(be.Y).(*ast.BasicLit); ok {
+					if (be.Op == token.GTR && bl.Value != "0") || (be.Op == token.GEQ && bl.Value != "0" && bl.Value != "1") {
+						implies = true
+					}
+				}
+				return true
+			})
+			// the comparison must be a conjunct of the condition
+			r.Check(implies, "R12.23", fmt.Sprintf("typecheck.unpackParams/unpacking#%d/only-for-several-values", n), ic.pos(ifs.Pos()), "the guard implies that the call returns at least two values",
+				"typecheck.unpackParams unpacks a single call argument under "+types.ExprString(ifs.Cond)+", which does not imply that the callee returns several values: a call returning nothing becomes an empty parameter list, so f(g()) with a variadic f (or println(g()), recover(g())) is accepted although g() has no value")
+			return true
+		})
+		if n == 0 {
+			r.Errorf("R12.23: the unpacking of a single call argument was not found in typecheck.unpackParams")
+		}
+	} else {
+		r.Errorf("R12.23: typecheck.unpackParams not found")
+	}
+	// ---- R12.24
+	cfgFn := ic.fn(r, "Interpreter.cfg")
+	if cfgFn != nil {
+		var cc *ast.CaseClause
+		ast.Inspect(cfgFn.Decl.Body, func(q ast.Node) bool {
+			c, ok := q.(*ast.CaseClause)
+			if !ok {
+				return true
+			}
+			for _, l := range kindLabels(ic, c) {
+				if l == "returnStmt" && len(callsIn(info, c, true, "interp.mustReturnValue")) > 0 {
+					cc = c
+				}
+			}
+			return true
+		})
+		if cc == nil {
+			r.Errorf("R12.24: the returnStmt case of cfg was not found")
+		} else {
+			defFld := ic.field("scope", "def")
+			var fromDef func(e ast.Expr, depth int) bool
+			fromDef = func(e ast.Expr, depth int) bool {
+				found := false
+				ast.Inspect(e, func(z ast.Node) bool {
+					switch y := z.(type) {
+					case *ast.SelectorExpr:
+						if selField(info, y) == defFld {
+							found = true
+						}
+					case *ast.Ident:
+						if v, ok := info.Uses[y].(*types.Var); ok && !v.IsField() && depth < 3 {
+							// definitions inside the case only: a variable assigned elsewhere is walk state
+							ast.Inspect(cc, func(d ast.Node) bool {
+								if as, ok := d.(*ast.AssignStmt); ok {
+									for i, l := range as.Lhs {
+										if id := identOf(l); id != nil && info.ObjectOf(id) == types.Object(v) {
+											if len(as.Rhs) == len(as.Lhs) {
+												if fromDef(as.Rhs[i], depth+1) {
+													found = true
+												}
+											} else if len(as.Rhs) == 1 && fromDef(as.Rhs[0], depth+1) {
+												found = true
+											}
+										}
+									}
+								}
+								return true
+							})
+						}
+					}
+					return true
+				})
+				return found
+			}
+			n := 0
+			for _, c := range callsIn(info, cc, true, "interp.itype.assignableTo") {
+				if len(c.Args) != 1 {
+					continue
+				}
+				n++
+				r.Check(fromDef(c.Args[0], 0), "R12.24", fmt.Sprintf("cfg/case:returnStmt/operand-check#%d/result-types-of-the-current-function", n), ic.pos(c.Pos()), "the result type derives from the scope's current function",
+					"the returnStmt case of cfg compares an operand with "+types.ExprString(c.Args[0])+", which does not derive from the scope's current function (sc.def) inside the case: it is state of the walk, assigned when functions are entered and left, and goes stale for a nesting its bookkeeping does not foresee - a return of a literal nested two levels deep is checked against the results of the enclosing declaration")
+			}
+			if n == 0 {
+				r.Errorf("R12.24: no assignability test of the operands found in the returnStmt case of cfg")
+			}
+		}
+	}
+	// ---- R12.25
+	cmp := ic.F["itype.comparable"]
+	if cmp == nil || cmp.Decl.Body == nil {
+		r.Errorf("R12.25: (*itype).comparable not found")
+		return
+	}
+	nCase, bad := 0, ""
+	ast.Inspect(cmp.Decl.Body, func(q ast.Node) bool {
+		c, ok := q.(*ast.CaseClause)
+		if !ok {
+			return true
+		}
+		lists := ""
+		for _, e := range c.List {
+			if id := identOf(e); id != nil {
+				switch id.Name {
+				case "funcT", "sliceT", "mapT", "variadicT":
+					lists = id.Name
+				}
+			}
+		}
+		if lists == "" {
+			return true
+		}
+		nCase++
+		ast.Inspect(c, func(z ast.Node) bool {
+			if rs, ok := z.(*ast.ReturnStmt); ok && len(rs.Results) == 1 {
+				if id := identOf(rs.Results[0]); id == nil || id.Name != "false" {
+					bad = "the case listing " + lists + " returns " + types.ExprString(rs.Results[0]) + " at " + ic.pos(rs.Pos())
+				}
+			}
+			return true
+		})
+		return true
+	})
+	r.Check(bad == "", "R12.25", "itype.comparable/functions-slices-maps-never-comparable", ic.pos(cmp.Decl.Pos()), fmt.Sprintf("%d cases list such categories, all return false (the others are left to reflect)", nCase),
+		"(*itype).comparable answers that such values can be compared: "+bad+". f == g with two function values (or structs and arrays containing them) is then accepted by the type checker, where compiled Go rejects it (func can only be compared to nil)")
 }
